@@ -173,6 +173,37 @@ func c19Run(ctx *run.Ctx, id run.CaseID) {
 				break
 			}
 		}
+		// the same identities through the four float (D) wrappers at precision 3 on the input divided by 1000
+		if fr == frs[0] && gen.MaxAbs(subj, clp) <= 1<<24 && len(clp) > 0 {
+			sD, cD := toD(subj, 1000), toD(clp, 1000)
+			back := func(ps clip.PathsD) Paths {
+				out := make(Paths, len(ps))
+				for i, p := range ps {
+					for _, v := range p {
+						out[i] = append(out[i], Pt{X: int64(math.Round(v.X * 1000)), Y: int64(math.Round(v.Y * 1000))})
+					}
+				}
+				return out
+			}
+			var uD, iD, dD, xD, s1D clip.PathsD
+			if ctx.Guard(digest, "D-wrappers/"+sub, in, func() {
+				uD = clip.UnionWithClipPathsD(sD, cD, fr, 3)
+				iD = clip.IntersectWithClipPathsD(sD, cD, fr, 3)
+				dD = clip.DifferenceWithClipPathsD(sD, cD, fr, 3)
+				xD = clip.XorWithClipPathsD(sD, cD, fr, 3)
+				s1D = clip.UnionPathsD(sD, fr, 3)
+			}) {
+				ctx.Eval(5)
+				ctx.Count("area_identities_D", 2)
+				bU, bI, bD, bX, bS := ar(back(uD)), ar(back(iD)), ar(back(dD)), ar(back(xD)), ar(back(s1D))
+				if d := math.Abs(bX - (bU - bI)); d > bound {
+					ctx.Fail(digest, "areaD/X=U-I/"+sub, areaClass(d), fmt.Sprintf("D wrappers, precision 3: |area(X)-(area(U)-area(I))| = %.1f > %.1f integer units (X=%.1f U=%.1f I=%.1f)", d, bound, bX, bU, bI), in)
+				}
+				if d := math.Abs(bD + bI - bS); d > bound {
+					ctx.Fail(digest, "areaD/D+I=S/"+sub, areaClass(d), fmt.Sprintf("D wrappers, precision 3: |area(D)+area(I)-area(S)| = %.1f > %.1f integer units (D=%.1f I=%.1f S=%.1f)", d, bound, bD, bI, bS), in)
+				}
+			}
+		}
 		// single-set union spelled three ways
 		var a, b, c Paths
 		if ctx.Guard(digest, "single-set/"+sub, in, func() {
